@@ -9,6 +9,7 @@ import (
 	"net/http"
 	"net/http/httptrace"
 	"strconv"
+	"strings"
 	"sync/atomic"
 
 	"verif/internal/e2e"
@@ -89,7 +90,11 @@ func (e *env) stdClient(j int, rng *rand.Rand, addr string) {
 			if e.isFinal() {
 				e.violate("c10:"+e.cls+":response-never-completed", fmt.Sprintf("net/http client %s: request %s never got its response: the history is final (process idle, nothing pending for 3 s): %v\n%s", name, p, err, e.log.Slice(name, 30)))
 			} else if ctx.Err() == nil {
-				e.violate("c10:"+e.cls+":nethttp-request-failed", fmt.Sprintf("net/http client %s: request %s failed: %v (previous exchange on this client kept the connection alive: %v)\n%s", name, p, err, prevKeep, e.log.Slice(name, 30)))
+				// not asserted through this client: net/http hides which connection
+				// it used and why it gave up (the raw client asserts the same clause
+				// with full visibility). Counted and reported as inconclusive.
+				e.r.Count("nethttp_requests_failed(not asserted)", 1)
+				e.r.Inconclusive(fmt.Sprintf("case %d: net/http client %s: request %s failed: %v (previous exchange kept the connection alive: %v); server-side events: %s", e.c.Index, name, p, err, prevKeep, strings.ReplaceAll(e.log.Slice(name, 8), "\n", " ;")))
 			}
 			return
 		}
